@@ -86,6 +86,11 @@ SCENARIOS = {
         type Thing { kind: Kind tone: Tone f: InFragment name: String child: Thing }
         type Query { thing: Thing }
         """, "fragment TF on Thing { name f } query GetT { thing { kind ...TF child { tone ...TF } } }", {}),
+    "list-variables-with-non-null-items-of-inputs-and-enums": ("""
+        enum E { A } enum E2 { B } enum EU { C }
+        input I { e: E2 } input J { n: Int } input Never { u: EU }
+        type Query { q(items: [I!]!, modes: [E!], grid: [[J!]]): Int }
+        """, "query Q($items: [I!]!, $modes: [E!], $grid: [[J!]]) { q(items: $items, modes: $modes, grid: $grid) }", {}),
     "custom-operations-enabled-next-to-operations": ("""
         enum Used { A } enum OnlyInSchema { B } enum ArgEnum { C }
         input In { n: Int }
